@@ -14,6 +14,7 @@ Non-trivial: every case (status != 0); distinct = distinct (status, index, bindi
 from harness import indep_ber as B
 from harness import opslib as O
 from harness import refagent as RA
+from harness import walklib as W
 from harness.common import Result, run_driver
 from harness.knownsig import auth_len127
 
@@ -95,6 +96,7 @@ def run(ctx):
                 res.violate("e2e-error", case, want, obs["result"], "error response did not surface as the documented exception", _sig(index, len(vbs), obs["result"]))
         reqs.append(O.model_req(name, args, agent, version, clock))
         impls.append((case, obs))
+    walk_cases(ctx, res)
     if ctx.driver_ok:
         for (case, obs), ans in zip(impls, run_driver(reqs)):
             res.case("e2e-error", case)
@@ -105,6 +107,62 @@ def run(ctx):
         for case, _ in impls:
             res.case("e2e-error", case)
     return res
+
+
+def walk_cases(ctx, res):
+    """walk-style operations: the k-th request of the walk is answered with an error-status"""
+    reqs, impls = [], []
+    protos = [("v2c", "noauth"), ("v1", "noauth"), ("v3", "auth"), ("v3", "authpriv"), ("v2c", "noauth")]
+    for i in range(ctx.budget(400, 8000)):
+        db, roots = W.random_case(ctx.rng, max_inst=16, max_roots=3)
+        version, level = protos[i % len(protos)]
+        kind = "bulk" if (i % 3 == 1 and version != "v1") else "getnext"
+        lenient = kind == "getnext" and i % 4 == 0
+        size = ctx.rng.choice([1, 2, 5])
+        clean, _ = W.impl_walk({"db": db}, roots, kind, size=size, lenient=lenient)
+        rq = [e[1] for e in clean["events"] if e[0] == "req"]
+        if not rq:
+            continue
+        k = 0 if i % 2 == 0 else ctx.rng.randrange(len(rq))
+        foids = rq[k]
+        status = ctx.rng.choice([2, 2, 1, 5, 16, 19, 255, -1, 13])
+        index = ctx.rng.choice([0, 1, 1, 2, 7, -1])
+
+        def hook(agent, msg, out, foids=foids, status=status, index=index):
+            if isinstance(out, dict) and agent.log and [list(o) for o, _ in agent.log[-1].get("varbinds", [])] == foids:
+                out["a"], out["b"] = status, index
+            return out
+
+        walk, agent = W.impl_walk({"db": db}, roots, kind, size=size, lenient=lenient, version=version, level=level, hook=hook, budget=len(db) + 8)
+        case = {"db": db, "roots": roots, "kind": kind, "size": size, "lenient": lenient, "version": version, "level": level, "fault_request": k, "oids": foids, "status": status, "index": index}
+        res.count(f"walk-fault:{'first' if k == 0 else 'later'}:{'nosuchname' if status == 2 else 'other'}")
+        faulted = [r for r in agent.resp_log if r["a"] == status and r["b"] == index]
+        if walk["outcome"] == ["error", ["authError"]] and agent.raw_log and auth_len127(agent.raw_log[-1][1]):
+            res.violate("e2e-walk-error", case, "authentic response accepted", walk["outcome"], "authentic response rejected", {"kind": "auth-reject-len127"})
+            continue
+        if faulted:
+            want = want_exc(status, index, faulted[0]["varbinds"])
+            ok = walk["outcome"] == want or (status == 2 and k > 0 and walk["outcome"] == ["done"])
+            # nothing may be yielded after the faulted request went out
+            reqs_seen, late = 0, False
+            for e in walk["events"]:
+                if e[0] == "req":
+                    reqs_seen += 1
+                elif reqs_seen > k:
+                    late = True
+            if not ok or late:
+                res.violate("e2e-walk-error", case, want, walk["outcome"], "error response inside a walk did not surface as the documented exception" if not ok else "data yielded from an error response", {"kind": "error-not-surfaced", "walk": True, "first_request": k == 0, "returned_data": late})
+        reqs.append(W.model_request({"db": db}, roots, kind, size=size, lenient=lenient, fuel=len(db) + 10, fault={"oids": foids, "status": status, "index": index}))
+        impls.append((case, W.canon_impl_walk(walk)))
+    if ctx.driver_ok:
+        for (case, obs), ans in zip(impls, run_driver(reqs)):
+            res.case("e2e-walk-error", case)
+            model = W.canon_model_walk(ans)
+            if model != obs:
+                res.disagree("e2e-walk-error", case, obs, model)
+    else:
+        for case, _ in impls:
+            res.case("e2e-walk-error", case)
 
 
 def _sig(index, nvb, got):
